@@ -64,6 +64,7 @@ type half struct { // one direction: from a → b
 }
 
 type Conn struct {
+	WriteTimeouts int // Write calls that ended on the write deadline
 	sim     *Sim
 	name    string
 	peer    *Conn
@@ -126,19 +127,31 @@ func (c *Conn) toSim(t time.Time) time.Duration {
 	return d
 }
 
+// wakeAt makes the clock stop at a newly set deadline: a call of another task that is parked with an older, later
+// deadline re-reads the deadline in its predicate, but simulated time only advances to known instants. Without this
+// a Read interrupted by SetReadDeadline(sooner) would return at the next unrelated event instead of at the deadline.
+func (c *Conn) wakeAt(d time.Duration) {
+	if d > c.sim.now {
+		c.sim.After(d-c.sim.now, func() {})
+	}
+}
+
 func (c *Conn) SetDeadline(t time.Time) error {
 	c.sim.Yield(c.name + ".SetDeadline")
 	c.rdl, c.wdl = c.toSim(t), c.toSim(t)
+	c.wakeAt(c.rdl)
 	return nil
 }
 func (c *Conn) SetReadDeadline(t time.Time) error {
 	c.sim.Yield(c.name + ".SetReadDeadline")
 	c.rdl = c.toSim(t)
+	c.wakeAt(c.rdl)
 	return nil
 }
 func (c *Conn) SetWriteDeadline(t time.Time) error {
 	c.sim.Yield(c.name + ".SetWriteDeadline")
 	c.wdl = c.toSim(t)
+	c.wakeAt(c.wdl)
 	return nil
 }
 
@@ -227,6 +240,7 @@ func (c *Conn) Write(p []byte) (int, error) {
 		}
 		if c.wdl != 0 && s.now >= c.wdl {
 			s.Count("net.write_deadline_expired")
+			c.WriteTimeouts++
 			return total, ErrTimeout
 		}
 		if c.EPipe && c.in.fin {
